@@ -19,12 +19,14 @@ theorem inv_reachable (ops : List (Op P)) : Inv (run (init : State P) ops).1 := 
 
 /-- refinement: each mutating operation acts on the content exactly like the plain map operation -/
 theorem setPair_refines (s : State P) (ts : Int) (dev : String) (p : P) (h : Inv s) :
-    abs (step s (Op.setPair ts dev p)).1 = (abs s).setPair ts dev p ∧ (step s (Op.setPair ts dev p)).2 = Out.ok :=
-  setPair_refines' s ts dev p
+    abs (step s (Op.setPair ts dev p)).1 = (abs s).setPair ts dev p ∧ (step s (Op.setPair ts dev p)).2 = Out.ok := by
+  have _ := h  -- (holds even without the invariant)
+  exact setPair_refines' s ts dev p
 
 theorem setTs_refines (s : State P) (ts : Int) (inner : List (String × P)) (h : Inv s) :
-    abs (step s (Op.setTs ts inner)).1 = (abs s).setTs ts inner ∧ (step s (Op.setTs ts inner)).2 = Out.ok :=
-  setTs_refines' s ts inner
+    abs (step s (Op.setTs ts inner)).1 = (abs s).setTs ts inner ∧ (step s (Op.setTs ts inner)).2 = Out.ok := by
+  have _ := h  -- (holds even without the invariant)
+  exact setTs_refines' s ts inner
 
 theorem delTs_refines (s : State P) (ts : Int) (h : Inv s) :
     if (abs s).present ts then
